@@ -99,6 +99,9 @@ fn chunk_reads(run: &Run) {
             for rep in chunk_replies(&target, &other) {
                 let desc = json!({"read": "chunk_get", "requested": format!("chunk of {} bytes", tp.len()), "reply": rep.name, "other": format!("chunk of {} bytes", op.len())});
                 run.case(desc.to_string().as_bytes(), true);
+                if execs < 2 {
+                    run.sample(desc.clone());
+                }
                 let mut rig = ClientRig::new();
                 let client = rig.client.clone();
                 let reply = rep.reply.clone();
@@ -126,7 +129,9 @@ fn chunk_reads(run: &Run) {
             }
         }
     }
+    // each execution is one environment state (a reply set in one order) and one step of the real read
     run.count("schedules", execs);
+    run.count("states", execs);
     run.count("transitions", execs);
 }
 
@@ -139,6 +144,7 @@ fn file_bytes(len: usize, seed: u8) -> Bytes {
 
 fn data_reads(run: &Run) {
     let mut execs = 0u64;
+    let mut tree = 0u64;
     for len in [3usize, 10, 100, 4096] {
         let data = file_bytes(len, 1);
         let decoy = file_bytes(len, 2);
@@ -176,7 +182,7 @@ fn data_reads(run: &Run) {
                     let desc = json!({"read": if public { "data_get_public" } else { "data_get" }, "len": len, "replaced": tname, "with": sname});
                     run.case(desc.to_string().as_bytes(), true);
                     // every completion order of the concurrently pending chunk fetches
-                    let (n, _) = explore_seq(usize::MAX / 2, |ch| {
+                    let (n, _, nodes) = explore_seq(usize::MAX / 2, |ch| {
                         let mut rig = ClientRig::new();
                         let client = rig.client.clone();
                         let (addr, dmc) = (*dm.name(), DataMapChunk::from(dm.clone()));
@@ -208,6 +214,10 @@ fn data_reads(run: &Run) {
                         }
                     });
                     execs += n;
+                    tree += nodes;
+                    if execs <= 8 {
+                        run.sample(desc.clone());
+                    }
                 }
             }
             // honest read must succeed
@@ -231,7 +241,8 @@ fn data_reads(run: &Run) {
         }
     }
     run.count("schedules", execs);
-    run.count("transitions", execs);
+    run.count("states", tree);
+    run.count("transitions", execs + tree);
 }
 
 // ---------------------------------------------------------------------------------------------
@@ -321,6 +332,9 @@ fn result_map_in_order(order: &[&Version], run: &Run) -> HashMap<XorName, (Recor
 fn judge_vault(run: &Run, delivered: &[&Version], how: &str, res: Option<Result<(Bytes, u64), String>>) {
     let names: Vec<&str> = delivered.iter().map(|v| v.name).collect();
     let desc = json!({"read": "fetch_and_decrypt_vault", "delivery": how, "versions": names});
+    if how == "split" && delivered.len() == 3 && delivered[0].name == "v1" {
+        run.sample(desc.clone());
+    }
     // a validly signed pad under another kind's header is not a *version* the reader has to find (the network layer
     // rightly treats it as a record of that other kind), but its content is authentic, so returning it is no violation
     let best = delivered.iter().filter(|v| v.is_pad).filter_map(|v| v.authentic).map(|(c, _)| c).max();
@@ -413,7 +427,9 @@ fn vault_reads(run: &Run) {
             judge_vault(run, &delivered, "split", res);
         });
     }
+    // each execution is one environment state (a reply set in one order) and one step of the real read
     run.count("schedules", execs);
+    run.count("states", execs);
     run.count("transitions", execs);
 }
 
@@ -430,7 +446,6 @@ pub fn main(tier: Option<&str>) {
          not-enough-copies, and as a split result of every subset of 2..=3(4) versions in every iteration order of the result map. Every case is non-trivial.",
     );
     run.assume("the reply alphabet is what get_record_from_network can hand the client; how holders' answers become an agreed / split result is C05's subject");
-    run.count("states", 1);
     chunk_reads(&run);
     data_reads(&run);
     vault_reads(&run);
